@@ -1041,6 +1041,45 @@ def bad_utf8_scripts(prefix):
     return out
 
 
+def bad_property_value_scripts(prefix):
+    """a property given twice, a boolean property with the value 2, a zero where the standard forbids it, Maximum QoS 2 / 3, in
+    the packet types where the property is legal"""
+    out = []
+    LEGAL = {'connack': [17, 33, 36, 37, 39, 18, 34, 31, 40, 41, 42, 19, 26, 28, 21, 22], 'publish': [1, 2, 35, 8, 9, 3],
+             'puback': [31], 'suback': [31], 'disconnect': [17, 31, 28], 'auth': [21, 22, 31]}
+    i = 0
+    for kind, pids in LEGAL.items():
+        for pid in pids:
+            variants = [[(pid, one_prop_value(pid)), (pid, one_prop_value(pid))]]
+            if m.PROP_TYPE[pid] == 'u8':
+                variants += [[(pid, 2)], [(pid, 255)]]
+            if pid in (33, 39, 35, 34, 19, 17, 2):
+                variants += [[(pid, 0)]]
+            if pid == 36:
+                variants += [[(pid, 3)]]
+            for ps in variants:
+                s = Sess(f'{prefix}-badprop-{kind}-{pid}-{i}'); i += 1
+                if kind == 'connack':
+                    s.add('SETUP'); s.add('CONNECT cid=63'); s.add(m.feed(m.connack(0, 0, ps))); s.add('RUN'); s.ping(); s.feed(m.pingresp())
+                    out.append(s.script())
+                    continue
+                s.connect()
+                if kind == 'publish':
+                    op, sid = s.subscribed_stream()
+                    s.feed(m.publish(b'a', b'x', 1, 7, 0, 0, [(11, sid)] + ps))
+                elif kind == 'puback':
+                    o, p2 = s.publish(1); s.feed(m.ack('puback', p2, 0x97, ps))
+                elif kind == 'suback':
+                    o, p2, sid = s.subscribe(); s.feed(m.suback(p2, [0], ps))
+                elif kind == 'disconnect':
+                    s.feed(m.disconnect(0x8b, ps))
+                else:
+                    s.feed(m.auth(0x19, [(21, b'm')] + [x for x in ps if x[0] != 21] if pid != 21 else ps))
+                s.ping(); s.feed(m.pingresp())
+                out.append(s.script())
+    return out
+
+
 def fam_C04(rng, tier):
     out = []
     # (1) exhaustive short byte strings over the boundary alphabet, in both phases
@@ -3341,7 +3380,7 @@ def with_extras(fam):
 FAMILIES = {
     'C01': lambda rng, tier: fam_C01(rng, tier) + submission_order_scripts(rng, tier, 'c01'),
     'C02': lambda rng, tier: fam_C02(rng, tier) + user_property_order_scripts('c02'), 'C03': fam_C03,
-    'C04': with_common(lambda rng, tier: fam_C04(rng, tier) + burst_scripts('c04', tier) + prop_by_type_scripts('c04') + padded_subid_scripts('c04') + reason_sweep_scripts('c04', tier) + bad_utf8_scripts('c04'), 'c04'), 'C05': with_common(fam_C05, 'c05'), 'C06': with_common(fam_C06, 'c06'),
+    'C04': with_common(lambda rng, tier: fam_C04(rng, tier) + burst_scripts('c04', tier) + prop_by_type_scripts('c04') + padded_subid_scripts('c04') + reason_sweep_scripts('c04', tier) + bad_utf8_scripts('c04') + bad_property_value_scripts('c04'), 'c04'), 'C05': with_common(fam_C05, 'c05'), 'C06': with_common(fam_C06, 'c06'),
     'C07': with_common(lambda rng, tier: fam_C07(rng, tier) + padded_subid_scripts('c07'), 'c07'), 'C08': with_common(fam_C08, 'c08'), 'C09': with_common(lambda rng, tier: fam_C09(rng, tier) + congruent_id_scripts('c09', tier), 'c09'),
     'C10': with_common(fam_C10, 'c10'), 'C11': with_common(fam_C11, 'c11', n_quick=15, n_thorough=300),
     'C12': with_common(fam_C12, 'c12'), 'C13': with_common(fam_C13, 'c13'),
